@@ -5,3 +5,5 @@ import "github.com/hknutzen/Netspoc-Approve/go/pkg/cisco"
 // Entry points: hand the IOS command description to the harnesses that live
 // in package cisco (they need the unexported types).
 func VerifIOSACL() { cisco.VerifIOSACL(cmdInfo) }
+
+func VerifMergeACL() { cisco.VerifMergeACL(cmdInfo, "IOS") }
